@@ -91,19 +91,39 @@ func (n *sgNode) shape() string { return n.model() }
 // build produces the kyber predicate; `choice` is the list of branch choices along the
 // proof-obligated path and is turned into the pointer-keyed map the API wants.
 func (n *sgNode) build(choice []int, obligated bool, cm map[proof.Predicate]int) proof.Predicate {
+	return n.buildShared(choice, obligated, cm, nil)
+}
+
+// buildShared: with a non-nil memo, structurally identical Rep / And sub-trees become ONE
+// proof.Predicate object occurring several times in the tree (the package documents predicates as
+// immutable and safe to share or reuse).
+func (n *sgNode) buildShared(choice []int, obligated bool, cm map[proof.Predicate]int, memo map[string]proof.Predicate) proof.Predicate {
+	if memo != nil && n.kind != sgOr {
+		if p, ok := memo[n.model()]; ok {
+			return p
+		}
+	}
 	switch n.kind {
 	case sgRep:
 		var sb []string
 		for _, t := range n.terms {
 			sb = append(sb, sName(t[0]), pName(t[1]))
 		}
-		return proof.Rep(pName(n.p), sb...)
+		p := proof.Rep(pName(n.p), sb...)
+		if memo != nil {
+			memo[n.model()] = p
+		}
+		return p
 	case sgAnd:
 		var subs []proof.Predicate
 		for _, s := range n.subs {
-			subs = append(subs, s.build(nil, false, cm))
+			subs = append(subs, s.buildShared(nil, false, cm, memo))
 		}
-		return proof.And(subs...)
+		p := proof.And(subs...)
+		if memo != nil {
+			memo[n.model()] = p
+		}
+		return p
 	default:
 		ch := -1
 		var rest []int
@@ -113,7 +133,7 @@ func (n *sgNode) build(choice []int, obligated bool, cm map[proof.Predicate]int)
 		}
 		var subs []proof.Predicate
 		for i, s := range n.subs {
-			subs = append(subs, s.build(rest, obligated && i == ch, cm))
+			subs = append(subs, s.buildShared(rest, obligated && i == ch, cm, memo))
 		}
 		or := proof.Or(subs...)
 		if ch >= 0 && cm != nil {
